@@ -127,7 +127,7 @@ def run(ctx):
                     if e[1] == "PropZero":
                         return propagate(im, 0)
                     if e[1] == "PropList":
-                        return propagate(im, [k * d0 for k in e[2][0]])
+                        return propagate(im, [k * d0 for k in e[2][0]], **kwargs_for(e[2][1]))
                     raise ValueError(e[1])
 
                 # linearity, energy, gradient filter on the first step
@@ -136,6 +136,10 @@ def run(ctx):
                     p1, p2 = one(propagate(base, d0)), one(propagate(mkimg(arr2, spacing), d0))
                     comb = one(propagate(mkimg(a * arr + b * arr2, spacing), d0))
                     dl = dist(comb, a * p1 + b * p2, scale)
+                    # homogeneity over many decades: a field of amplitude 1e-9 (or 1e6) is the same field
+                    for c_ in (1e-9, 1e6):
+                        pc = one(propagate(mkimg(c_ * arr, spacing), d0))
+                        dl = max(dl, dist(pc / c_, p1, scale))
                     gf = 0.37 * LAM
                     dg = dist(one(propagate(base, d0, gradient_filter=gf)),
                               p1 - one(propagate(base, d0 + gf)), scale)
@@ -181,6 +185,8 @@ def run(ctx):
                             bad = ("energy_increased", en1 / en0)
                         if not meta_ok(base, res):
                             bad = ("coords_or_metadata", 0.0)
+                        if not bad and not ("z" in res.coords and np.array_equal(np.atleast_1d(res.z.values), [e[2][0] * d0])):
+                            bad = ("z_label", float(np.atleast_1d(res.z.values)[0]) if "z" in res.coords else float("nan"))
                     else:   # PropList: the stack of the single-distance results, matched by content
                         ks = e[2][0]
                         got = planes(res)
@@ -199,6 +205,20 @@ def run(ctx):
                                 used.add(hit[0])
                         if not bad and not meta_ok(base, res):
                             bad = ("coords_or_metadata", 0.0)
+                        if not bad:
+                            # ... and each plane sits under the label of its own distance
+                            # (the plane for distance 0 is the input itself and keeps the input's own label)
+                            zin = float(np.atleast_1d(im.z.values)[0]) if "z" in im.coords else 0.0
+                            lab = {k: (zin if k == 0 else k * d0) for k in ks}
+                            zs = [float(z) for z in np.atleast_1d(res.z.values)]
+                            if sorted(zs) != sorted(lab.values()):
+                                bad = ("list_z_labels", zs[0])
+                            elif len(set(lab.values())) == len(ks):
+                                for k, w in zip(ks, want):
+                                    pl = np.asarray(res.sel(z=lab[k]).transpose("x", "y").values)
+                                    if dist(pl, w, scale) > TOL:
+                                        bad = ("list_plane_under_wrong_label", dist(pl, w, scale))
+                                        break
                     if bad:
                         ctx.violation("propagate/%s" % bad[0],
                                       {"shape": shape, "dtype": dtype, "regime": regime, "defect": bad[1],
@@ -218,6 +238,8 @@ def run(ctx):
     for shape in fshapes:
         for dtype in ("real", "complex"):
             arr = nprng.normal(size=shape) + (1j * nprng.normal(size=shape) if dtype == "complex" else 0)
+            # amplitudes over many decades (a weak field is still a field): rotate 1, 1e-9, 1e6
+            arr = arr * [1.0, 1e-9, 1e6][(shape[0] + shape[1] + (dtype == "complex")) % 3]
             base = mkimg(arr, (0.1, 0.13))
             for e in gf.edges:
                 init, path = gf.path_to(e[0])
